@@ -133,6 +133,8 @@ pub struct Interpreter<'a, R: RealNumberInternalTrait> {
     pub env: Rc<Environment<R>>,
     lib_loader: LibraryLoader<'a, R>,
     imported_library: HashSet<LibraryName>,
+    // instantiated libraries: every import of a library refers to this one instance
+    libraries: HashMap<LibraryName, Library<R>>,
     import_end: bool, // indicate program's import declaration part end
     syntax_env: Rc<LexicalScope<Transformer>>, // macros defined by programs evaluated on this interpreter
     pub program_directory: Option<PathBuf>,
@@ -151,6 +153,7 @@ impl<'a, R: RealNumberInternalTrait> Interpreter<'a, R> {
             env: environment,
             lib_loader: LibraryLoader::default(),
             imported_library: HashSet::new(),
+            libraries: HashMap::new(),
             import_end: false,
             syntax_env: create_syntax_binding(),
             program_directory: None,
@@ -175,11 +178,16 @@ impl<'a, R: RealNumberInternalTrait> Interpreter<'a, R> {
         &self.lib_loader
     }
     pub fn append_lib_loader(&mut self, lib_loader: LibraryLoader<'a, R>) {
+        for name in lib_loader.lib_factories.keys() {
+            self.libraries.remove(name);
+        }
         self.lib_loader
             .lib_factories
             .extend(lib_loader.lib_factories.into_iter());
     }
     pub fn register_library_factory(&mut self, library_factory: LibraryFactory<'a, R>) {
+        // a replaced factory must not be shadowed by the instance of the old one
+        self.libraries.remove(library_factory.get_library_name());
         self.lib_loader.register_library_factory(library_factory);
     }
 
@@ -525,6 +533,9 @@ impl<'a, R: RealNumberInternalTrait> Interpreter<'a, R> {
         }
     }
     pub fn get_library(&mut self, name: Located<LibraryName>) -> Result<Library<R>> {
+        if let Some(library) = self.libraries.get(name.deref()) {
+            return Ok(library.clone());
+        }
         let factory = match self.lib_loader.lib_factories.get(&name) {
             Some(factory) => factory,
             None => {
@@ -536,7 +547,10 @@ impl<'a, R: RealNumberInternalTrait> Interpreter<'a, R> {
             }
         }
         .clone();
-        self.new_library(&factory)
+        let library = self.new_library(&factory)?;
+        self.libraries
+            .insert(name.deref().clone(), library.clone());
+        Ok(library)
     }
     pub fn eval_import_set(&mut self, import: &ImportSet) -> Result<Vec<(String, Value<R>)>> {
         match &import.data {
